@@ -151,6 +151,14 @@ CLAIMED['C15'] = dict(
     technique='bounded stand-in at the property level: QA-corpus round trips, one-bit variants for equality / hash / index consistency, factory-built routes, small-scope exhaustive AS paths; ' + PYVC + ' on leaf encoders',
 )
 
+CLAIMED['C10'] = dict(
+    category='exploration',
+    text='BOUNDED at the property level (faults-in-every-state): 26 faults -- bad marker, lengths 18 / 4097 / keepalive with a body / OPEN of 24 bytes, unknown types 9 / 200 / 252, OPERATIONAL without its capability, OPEN with version 3 / wrong AS / router-id 0.0.0.0 / hold time 1 / 2, a second OPEN, KEEPALIVE / UPDATE / ROUTE-REFRESH too early, UPDATEs with overrunning attribute or withdrawn lengths / 3-byte body / prefix length 33 / truncated MP_REACH, ROUTE-REFRESH of 3 bytes / reserved subtype -- each injected in OPENSENT, OPENCONFIRM and ESTABLISHED where RFC 4271 / 6608 / 7313 define the answer, plus a NOTIFICATION (well-formed; 20 bytes long) received in each state, API teardown 2 / 3 / 4 with and without a peer that announced graceful restart, and hold-timer expiry with a negotiated hold time of 3 s. Each case is a fresh REAL Peer._run() (real FSM, Protocol, Incoming connection, timers) over loopback TCP against a scripted remote; from the injection until close: at most one NOTIFICATION, it is the last message, nothing follows it, its code / subcode names the class, and a NOTIFICATION is never answered. Deductive obligations shared with C06 / C07 / C12 (discharged by z3): header classification 1/1, 1/2, 1/3 in Connection.reader_async / Protocol.read_message / Message.unpack, OPEN validation 2/x in Negotiated.validate, hold timer 4/0 in ReceiveTimer.check_ka_timer.',
+    note='Exploration level: the raise sites of Notify inside the UPDATE / attribute decoders (3/x subcodes) and the exception arms of Peer._run have no per-site contract (the plan of DESIGN 6 C10, a raise-site table, is not built). Cells where two classes apply (a malformed OPEN that is also out of place) accept either; an OPEN or an unnegotiated OPERATIONAL received in ESTABLISHED may be ignored (the session does not end). Closing without a NOTIFICATION when graceful restart is configured and announced by ExaBGP is taken as intended (RFC 4724) and not exercised. One genuine defect repaired (OPERATIONAL / type 252 ended the session silently).',
+    ref='DESIGN.md §6 C10, §11.16',
+    technique='bounded stand-in at the property level: fault injection in every session state of the real Peer over loopback TCP, oracle = RFC 4271 section 6 class table; ' + PYVC + ' on the header / OPEN / hold-timer classification shared with C06, C07, C12',
+)
+
 NOT_YET = 'check not built yet in this session (planned in DESIGN.md §6); not claimed until its obligations are discharged'
 NA = {}
 
